@@ -118,6 +118,18 @@ def t_loopspawn(r, name):
     return body, True
 
 
+def t_loopvar(r, name):
+    """the goroutine WRITES the variable of the three-clause loop it is started in, and the iteration waits for it: the captured
+    variable is the loop's own cell (Go's per-iteration copies coincide with it here, because each iteration ends after its goroutine)"""
+    n = r.randrange(6, 14)
+    k = r.randrange(1, 4)
+    body = "func %s() uint64 {\n\tmu := new(sync.Mutex)\n\twg := new(sync.WaitGroup)\n\tvar sum uint64 = 0\n" % name
+    body += ("\tfor i := uint64(0); i < %d; i++ {\n\t\twg.Add(1)\n\t\tgo func() {\n\t\t\tmu.Lock()\n\t\t\ti = i + %d\n\t\t\tsum = sum + i\n\t\t\tmu.Unlock()\n\t\t\twg.Done()\n\t\t}()\n"
+             "\t\twg.Wait()\n\t}\n" % (n, k))
+    body += "\tmu.Lock()\n\tres := sum\n\tmu.Unlock()\n\treturn res\n}\n"
+    return body, True
+
+
 def t_helper(r, name):
     v = r.randrange(1, 30)
     helper = "func %s_bump(mu *sync.Mutex, p *uint64, by uint64, wg *sync.WaitGroup) {\n\tmu.Lock()\n\t*p = *p + by\n\tmu.Unlock()\n\twg.Done()\n}\n\n" % name
@@ -232,9 +244,15 @@ def t_byvalue(r, name):
     """forms goose does not translate (a wait group held by value, the mutex reached through a condition variable's L field):
     they must be rejected, or mean what Go means"""
     v = r.randrange(1, 60)
-    if r.randrange(2) == 0:
+    variant = getattr(r, "byvalue_variant", r.randrange(3))
+    if variant == 0:
         return ("func %s() uint64 {\n\tvar wg sync.WaitGroup\n\tmu := new(sync.Mutex)\n\tvar n uint64 = 0\n\twg.Add(1)\n\tgo func() {\n\t\tmu.Lock()\n\t\tn = n + %d\n\t\tmu.Unlock()\n\t\twg.Done()\n\t}()\n"
                 "\twg.Wait()\n\tmu.Lock()\n\tres := n\n\tmu.Unlock()\n\treturn res\n}\n" % (name, v)), True
+    if variant == 1:
+        # … and c.L when the variable the condition variable was made from has been re-assigned since: c.L is still the first mutex
+        return ("func %s() uint64 {\n\tvar mu *sync.Mutex = new(sync.Mutex)\n\tc := sync.NewCond(mu)\n\tfirst := mu\n\tmu = new(sync.Mutex)\n\tvar ready bool = false\n\tvar n uint64 = %d\n"
+                "\tgo func() {\n\t\tfirst.Lock()\n\t\tn = n + 1\n\t\tready = true\n\t\tc.Signal()\n\t\tfirst.Unlock()\n\t}()\n"
+                "\tc.L.Lock()\n\tfor !ready {\n\t\tc.Wait()\n\t}\n\tres := n\n\tc.L.Unlock()\n\tmu.Lock()\n\tmu.Unlock()\n\treturn res\n}\n" % (name, v)), True
     return ("func %s() uint64 {\n\tmu := new(sync.Mutex)\n\tc := sync.NewCond(mu)\n\tvar n uint64 = %d\n\tc.L.Lock()\n\tn = n + 1\n\tc.L.Unlock()\n\tmu.Lock()\n\tres := n\n\tmu.Unlock()\n\treturn res\n}\n" % (name, v)), True
 
 
@@ -253,7 +271,7 @@ def t_global(r, name):
 
 MAY_BE_REJECTED = {"t_goargs", "t_byvalue", "t_global"}
 
-TEMPLATES = [t_goargs, t_counter, t_counter, t_cond, t_timeout, t_order, t_loopspawn, t_helper, t_handoff, t_signalled, t_owntypes, t_bcast, t_byvalue, t_byvalue, t_poll, t_global, t_global]
+TEMPLATES = [t_goargs, t_counter, t_counter, t_cond, t_timeout, t_order, t_loopspawn, t_helper, t_handoff, t_signalled, t_owntypes, t_bcast, t_byvalue, t_byvalue, t_byvalue, t_poll, t_global, t_global, t_loopvar]
 
 
 def package(seed, nfuncs=12):
@@ -265,7 +283,8 @@ def package(seed, nfuncs=12):
         r.force_zero_timeout = (seed % 2 == 0)
         r.force_var_mutex = (k == 2)
         r.global_variant = (seed + k) % 2
-        t = [t_timeout, t_goargs, t_counter, t_signalled, t_owntypes, t_bcast, t_byvalue, t_poll, t_global][k] if k < 9 else TEMPLATES[(seed * 3 + k) % len(TEMPLATES)] if k < 11 else r.choice(TEMPLATES)
+        r.byvalue_variant = (seed + k) % 3
+        t = [t_timeout, t_goargs, t_counter, t_signalled, t_owntypes, t_bcast, t_byvalue, t_poll, t_global, t_loopvar, t_byvalue][k] if k < 11 else r.choice(TEMPLATES)
         src, det = t(r, "c%d" % k)
         fns.append(("c%d" % k, t.__name__, src, det))
     body = "\n".join(f[2] for f in fns)
